@@ -84,8 +84,9 @@ RunOK ==
   /\ Ev.before = cur
   /\ LET isPkg == GoIdx(by) # {}
          ifs == IF isPkg THEN ToSet(gop[CHOOSE i \in GoIdx(by) : TRUE].ifaces) ELSE {}
-         e == RunExpect(by, isPkg, ifs, by \in ran)
-     IN e.judged => (Ev.exit = 0) = e.ok /\ ToSet(Ev.mocked) = e.mocked
+         may == IF isPkg THEN ToSet(gop[CHOOSE i \in GoIdx(by) : TRUE].may) ELSE {}
+         e == RunExpect(by, isPkg, ifs, may, by \in ran)
+     IN e.judged => (Ev.exit = 0) = e.ok /\ MockedOK(e, ToSet(Ev.mocked))
 CRun ==
   /\ cur' = Ev.after
   /\ by' = IF Ev.after = Ev.before THEN by ELSE None
